@@ -264,4 +264,124 @@ theorem relax_fold_lowest (T : Tree par d) (D fuel : Nat) (hD : ∀ x, d x ≤ D
     have := ih (S ++ [G]) _ step
     simpa [List.append_assoc] using this
 
+/-! ### trees on a domain, and independence of the walk from the parent function outside it -/
+
+theorem up_congr {par par' : Nat → Nat} (X : Nat → Prop) (hcl : ∀ x, X x → X (par x))
+    (hag : ∀ x, X x → par' x = par x) : ∀ k x, X x → up par' k x = up par k x ∧ X (up par k x) := by
+  intro k
+  induction k with
+  | zero => intro x hx; exact ⟨rfl, hx⟩
+  | succ k ih =>
+    intro x hx
+    simp only [up]
+    rw [hag x hx]
+    exact ih (par x) (hcl x hx)
+
+theorem anc_congr {par par' : Nat → Nat} (X : Nat → Prop) (hcl : ∀ x, X x → X (par x))
+    (hag : ∀ x, X x → par' x = par x) {c x : Nat} (hx : X x) : Anc par' c x ↔ Anc par c x := by
+  constructor
+  · rintro ⟨k, hk⟩; exact ⟨k, by rw [← (up_congr X hcl hag k x hx).1]; exact hk⟩
+  · rintro ⟨k, hk⟩; exact ⟨k, by rw [(up_congr X hcl hag k x hx).1]; exact hk⟩
+
+theorem anc_mem {par : Nat → Nat} (X : Nat → Prop) (hcl : ∀ x, X x → X (par x)) {c x : Nat}
+    (hx : X x) (h : Anc par c x) : X c := by
+  obtain ⟨k, hk⟩ := h
+  rw [← hk]
+  exact (up_congr X hcl (fun _ _ => rfl) k x hx).2
+
+theorem lcaLoop_congr {par par' : Nat → Nat} (X : Nat → Prop) (hcl : ∀ x, X x → X (par x))
+    (hag : ∀ x, X x → par' x = par x) : ∀ fuel a b visA visB, X a → X b →
+      lcaLoop par' fuel a b visA visB = lcaLoop par fuel a b visA visB := by
+  intro fuel
+  induction fuel with
+  | zero => intro a b visA visB _ _; rfl
+  | succ fuel ih =>
+    intro a b visA visB ha hb
+    simp only [lcaLoop]
+    split
+    · rfl
+    · rw [hag a ha]
+      exact ih b (par a) visB (a :: visA) hb (hcl a ha)
+
+/-- a tree on the domain `D` with root `r` -/
+structure TreeOn (D : Nat → Prop) (par d : Nat → Nat) (r : Nat) : Prop where
+  hr : D r
+  dr : d r = 0
+  rpar : par r = r
+  closed : ∀ x, D x → D (par x)
+  root : ∀ x, D x → d x = 0 → x = r
+  step : ∀ x, D x → d x ≠ 0 → d (par x) + 1 = d x
+
+theorem TreeOn.congr {D : Nat → Prop} {par par' d : Nat → Nat} {r : Nat} (T : TreeOn D par d r)
+    (hag : ∀ x, D x → par' x = par x) : TreeOn D par' d r :=
+  ⟨T.hr, T.dr, by rw [hag r T.hr]; exact T.rpar, fun x hx => by rw [hag x hx]; exact T.closed x hx,
+   T.root, fun x hx h => by rw [hag x hx]; exact T.step x hx h⟩
+
+/-- `lca_lowest` for a tree that is only known on a domain closed under `par` -/
+theorem lca_lowest_on {D : Nat → Prop} {par d : Nat → Nat} {r : Nat} (T : TreeOn D par d r)
+    (P Q fuel : Nat) (hP : D P) (hQ : D Q) (hf : 2 * (d P + d Q) + 3 ≤ fuel) :
+    Anc par (lca par fuel P Q) P ∧ Anc par (lca par fuel P Q) Q ∧ D (lca par fuel P Q) ∧
+      ∀ c, Anc par c P → Anc par c Q → Anc par c (lca par fuel P Q) := by
+  classical
+  let par' : Nat → Nat := fun x => if D x then par x else r
+  let d' : Nat → Nat := fun x => if D x then d x else 1
+  have hag : ∀ x, D x → par' x = par x := fun x hx => by simp only [par', hx, if_true]
+  have T' : Tree par' d' := by
+    refine ⟨?_, ?_, ?_⟩
+    · intro x h0
+      by_cases hx : D x
+      · have hd : d x = 0 := by simpa only [d', hx, if_true] using h0
+        have := T.root x hx hd
+        subst this
+        rw [hag _ hx]; exact T.rpar
+      · simp only [d', hx, if_false] at h0; cases h0
+    · intro x h0
+      by_cases hx : D x
+      · have hd : d x ≠ 0 := by simpa only [d', hx, if_true] using h0
+        have hpx := T.closed x hx
+        simp only [d', par', hx, hpx, if_true]
+        exact T.step x hx hd
+      · have hr := T.hr
+        simp only [d', par', hx, hr, if_false, if_true, T.dr]
+    · intro x y hx hy
+      by_cases hxD : D x
+      · by_cases hyD : D y
+        · have h1 : d x = 0 := by simpa only [d', hxD, if_true] using hx
+          have h2 : d y = 0 := by simpa only [d', hyD, if_true] using hy
+          rw [T.root x hxD h1, T.root y hyD h2]
+        · simp only [d', hyD, if_false] at hy; cases hy
+      · simp only [d', hxD, if_false] at hx; cases hx
+  have hf' : 2 * (d' P + d' Q) + 3 ≤ fuel := by simpa only [d', hP, hQ, if_true] using hf
+  obtain ⟨l1, l2, l3⟩ := lca_lowest T' P Q fuel hf'
+  have hsame : lca par' fuel P Q = lca par fuel P Q :=
+    lcaLoop_congr D T.closed hag fuel P Q [P] [Q] hP hQ
+  rw [hsame] at l1 l2 l3
+  have a1 := (anc_congr D T.closed hag hP).mp l1
+  have a2 := (anc_congr D T.closed hag hQ).mp l2
+  refine ⟨a1, a2, anc_mem D T.closed hP a1, ?_⟩
+  intro c hcP hcQ
+  have hL := anc_mem D T.closed hP a1
+  exact (anc_congr D T.closed hag hL).mp
+    (l3 c ((anc_congr D T.closed hag hP).mpr hcP) ((anc_congr D T.closed hag hQ).mpr hcQ))
+
+/-- `c` is the lowest common ancestor of the graphs satisfying `P` -/
+def LowestP (par : Nat → Nat) (P : Nat → Prop) (c : Nat) : Prop :=
+  (∀ G, P G → Anc par c G) ∧ ∀ c', (∀ G, P G → Anc par c' G) → Anc par c' c
+
+theorem LowestP.congr {par par' : Nat → Nat} (D : Nat → Prop) (hcl : ∀ x, D x → D (par x))
+    (hag : ∀ x, D x → par' x = par x) {P : Nat → Prop} {c : Nat} (hP : ∀ G, P G → D G) (hc : D c)
+    (h : LowestP par P c) : LowestP par' P c := by
+  constructor
+  · intro G hG
+    exact (anc_congr D hcl hag (hP G hG)).mpr (h.1 G hG)
+  · intro c' hc'
+    apply (anc_congr D hcl hag hc).mpr
+    apply h.2 c'
+    intro G hG
+    exact (anc_congr D hcl hag (hP G hG)).mp (hc' G hG)
+
+theorem LowestP.iff {par : Nat → Nat} {P Q : Nat → Prop} {c : Nat} (hPQ : ∀ G, P G ↔ Q G)
+    (h : LowestP par P c) : LowestP par Q c :=
+  ⟨fun G hG => h.1 G ((hPQ G).mpr hG), fun c' hc' => h.2 c' (fun G hG => hc' G ((hPQ G).mp hG))⟩
+
 end BuildAlg
